@@ -636,13 +636,15 @@ var vLens = []int{0, 1, 2, 17, 18, 19, 20, 21, 22, 23, 24, 25, 100, 247, 248, 24
 
 // vGenEid: a valid endpoint of a random form. Text lengths cross the 23/24 and 255/256 head boundaries
 // ("//" + node + "/" + demux).
+var vBigText = false // 64 KiB endpoint texts now and then
+
 func vGenEid(r *vRng, allowNone bool) EndpointID {
 	switch k := r.intn(10); {
 	case k < 2 && allowNone:
 		return DtnNone()
 	case k < 6:
 		total := vLens[r.intn(len(vLens))]
-		if r.chance(3) {
+		if vBigText && r.chance(3) {
 			total = []int{65532, 65533, 65534, 65535, 65536, 65537}[r.intn(6)]
 		}
 		nl := 1 + r.intn(12)
@@ -723,6 +725,8 @@ type vGenOpts struct {
 
 // vGenBundle: a VALID bundle (passes CheckValid at `now`, serialisable) of random shape.
 func vGenBundle(r *vRng, o vGenOpts) Bundle {
+	vBigText = o.big
+	defer func() { vBigText = false }()
 	var flags BundleControlFlags
 	for _, f := range []BundleControlFlags{IsFragment, AdministrativeRecordPayload, MustNotFragmented, RequestUserApplicationAck,
 		RequestStatusTime, StatusRequestReception, StatusRequestForward, StatusRequestDelivery, StatusRequestDeletion} {
